@@ -20,6 +20,7 @@ fn main() {
         "paths" => paths_mode::run(&args[1..]),
         "graph" => graph::run(&args[1..]),
         "determ" => determ::run(&args[1..]),
+        "dump" => determ::dump(&args[1..]),
         other => {
             eprintln!("unknown mode {other:?}");
             std::process::exit(2);
